@@ -58,13 +58,13 @@ def Cfg.workers (c : Cfg) : List (TxId × List Access) :=
 def Cfg.init (c : Cfg) : St :=
   let ws := c.workers
   let nTx := c.txs.length
-  { n := ws.length, maxSize := c.maxSize, dbLock := c.dbLock, v := c.v,
+  { n := ws.length, nTx := nTx, maxSize := c.maxSize, dbLock := c.dbLock, v := c.v,
     txs := fun T => { commitFail := (c.txs.getD T (false, [])).1 },
     thr := fun t => match t with
       | .w i => match ws[i]? with
         | some (T, p) => { tx := T, todo := p }
         | none => {}
-      | .c T => { tx := T, pc := if T < nTx then .cWait else .cDone } }
+      | .c T => { tx := T, pc := .cWait } }
 
 def Cfg.tids (c : Cfg) : List Tid :=
   (List.range c.workers.length).map Tid.w ++ (List.range c.txs.length).map Tid.c
